@@ -1356,6 +1356,7 @@ impl Storage {
 
     /// Sets the storage to the given length.
     pub fn set_len(&mut self, len: u64) -> Result<(), ArchiveError> {
+        #[cfg(feature = "verif-hooks")] crate::verif::point("store.set-len");
         self.file.lock().set_len(len)?;
         self.mmap()?;
         Ok(())
@@ -1620,6 +1621,7 @@ impl<'a> StorageWrite<'a> {
     pub fn write(
         &mut self, data: &[u8]
     ) -> Result<(), ArchiveError> {
+        #[cfg(feature = "verif-hooks")] crate::verif::point("store.write");
         match self.0 {
             #[cfg(unix)]
             WriteInner::Mmap { ref mut mmap, ref mut pos } => {
